@@ -5,3 +5,4 @@ SPECIFICATION Spec
 INVARIANT C16_AfterCall
 INVARIANT C16_LogIntact
 INVARIANT C16_FramesIntact
+INVARIANT C16_NoTornRow
